@@ -123,7 +123,7 @@ class TermAlg:
     def call(self, fi: FuncInfo, pos: List[Any], kw: Optional[Dict[str, Any]] = None, self_val: Any = None) -> Any:
         kw = kw or {}
         if fi.key in self.stubs:
-            return self.stubs[fi.key](self, pos, kw)
+            return self.stubs[fi.key](self, ([self_val] + list(pos)) if (self_val is not None and fi.kind in ("method", "property")) else pos, kw)
         if self.depth > 12:
             raise AnalysisError("kernel inlining too deep at %s" % fi.key)
         env: Dict[str, Any] = {}
@@ -139,6 +139,8 @@ class TermAlg:
                 env[p] = self.eval(d, {})
         for p in params:
             if p not in env:
+                if len(self.fstack) > 0:
+                    raise Raised("TypeError")  # the interpreted code calls %s without its argument %s
                 raise AnalysisError("missing argument %s for %s" % (p, fi.key))
         self.depth += 1
         self.fstack.append(fi)
@@ -290,6 +292,14 @@ class TermAlg:
                 else:
                     raise
             return
+        if isinstance(s, ast.With):
+            # context managers are not modelled: the resource is whatever the (stubbed) call gives, the body runs once
+            for item in s.items:
+                v = self.eval(item.context_expr, env)
+                if item.optional_vars is not None:
+                    self.assign(item.optional_vars, v, env)
+            self.block(s.body, env)
+            return
         raise AnalysisError("statement %s outside the kernel fragment in %s" % (type(s).__name__, self.fstack[-1].key))
 
     def assign(self, t, v, env):
@@ -323,6 +333,10 @@ class TermAlg:
             return list(v.items)
         if isinstance(v, DictV):
             return list(v.d.keys())
+        if isinstance(v, tuple) and v and v[0] == "str" and "?" not in v[1]:
+            return [("str", ch) for ch in v[1]]  # a string is iterated character by character
+        if isinstance(v, (Rat, NoneT)) or isinstance(v, bool):
+            raise Raised("TypeError")  # a number / None is not iterable
         raise AnalysisError("cannot iterate over %s in %s" % (norm(node), self.fstack[-1].key))
 
     # ------------------------------------------------------------ expressions
@@ -352,7 +366,14 @@ class TermAlg:
             r = self.prog.resolve_name(fi.module, e.id)
             if r is not None:
                 return r
-        if e.id in ("float", "int", "str", "list", "len", "isinstance", "abs", "enumerate", "sorted", "dict", "type", "all", "any", "zip", "range"):
+        if fi is not None and e.id in fi.module.assigns and isinstance(fi.module.assigns[e.id], (ast.Tuple, ast.List, ast.Constant, ast.Dict)):
+            # a constant table / literal of the module
+            return self.eval(fi.module.assigns[e.id], {})
+        if e.id == "open":
+            return ("extmod", "builtins.open")
+        if e.id == "print":
+            return ("ignore",)  # writes to the terminal: no value, no effect on the records
+        if e.id in ("float", "int", "str", "list", "len", "isinstance", "abs", "enumerate", "sorted", "dict", "type", "all", "any", "zip", "range", "bool"):
             return ("builtin", e.id)
         if e.id in ("product", "reduce", "map"):
             return ("builtin", e.id)
@@ -385,6 +406,10 @@ class TermAlg:
             fi = self.prog.resolve_method(b.name, e.attr)
             if fi is not None:
                 return ("unbound", b.name, fi)
+        if b.__class__.__name__ == "ModInfo":
+            r = self.prog.resolve_dotted(b.name + "." + e.attr)
+            if r is not None:
+                return r  # a function / class / sub-module of a module of the package
         if isinstance(b, Key) and e.attr == "name":
             return ("str", b.name)
         if isinstance(b, tuple) and b and b[0] == "str" and e.attr == "join":
@@ -416,6 +441,8 @@ class TermAlg:
             c = k.as_const()
             if c is not None and c.denominator == 1 and -len(b.items) <= int(c) < len(b.items):
                 return b.items[int(c)]
+            if c is not None and c.denominator == 1:
+                raise Raised("IndexError")  # a concrete list indexed beyond its end
         raise AnalysisError("subscript %s outside the kernel fragment in %s" % (norm(e), self.fstack[-1].key))
 
     def x_Tuple(self, e, env):
@@ -541,6 +568,8 @@ class TermAlg:
         return self.arith(e.op, self.eval(e.left, env), self.eval(e.right, env), e)
 
     def arith(self, op, l, r, node):
+        if isinstance(l, NoneT) or isinstance(r, NoneT):
+            raise Raised("TypeError")  # arithmetic on None
         if isinstance(l, Rat) and isinstance(r, Rat):
             if isinstance(op, ast.Add):
                 return l + r
@@ -593,6 +622,10 @@ class TermAlg:
                 res = any(self.same(l, x) for x in r.items)
             elif isinstance(r, DictV):
                 res = l in r.d
+            elif isinstance(r, tuple) and r and r[0] == "str" and isinstance(l, tuple) and l and l[0] == "str" and "?" not in r[1] + l[1]:
+                res = l[1] in r[1]  # substring test
+            elif isinstance(r, (Rat, NoneT)) or isinstance(r, bool):
+                raise Raised("TypeError")  # `x in 3` / `x in None`
             else:
                 raise AnalysisError("membership %s" % norm(e))
             return res if isinstance(op, ast.In) else not res
@@ -816,11 +849,26 @@ class TermAlg:
                     return d.d.pop(pos[0])
                 if name == "get":
                     return d.d.get(pos[0], pos[1] if len(pos) > 1 else NONE)
+                if name == "update" and len(pos) == 1 and isinstance(pos[0], DictV) and not kw:
+                    d.d.update(pos[0].d)
+                    return NONE
+                if name == "setdefault" and len(pos) == 2:
+                    return d.d.setdefault(pos[0], pos[1])
             if t == "listm":
                 l, name = f[1], f[2]
                 if name == "append":
                     l.items.append(pos[0])
                     return NONE
+                if name == "extend" and len(pos) == 1:
+                    l.items.extend(self.iterate(pos[0], e))
+                    return NONE
+                if name == "insert" and len(pos) == 2 and isinstance(pos[0], Rat) and pos[0].as_const() is not None:
+                    l.items.insert(int(pos[0].as_const()), pos[1])
+                    return NONE
+                if name == "pop" and not pos:
+                    if not l.items:
+                        raise Raised("IndexError")
+                    return l.items.pop()
                 if name == "copy":
                     return ListV(l.items)
                 if name == "remove":
@@ -869,6 +917,8 @@ class TermAlg:
                     return num(len(self.iterate(pos[0], e)))
                 if n == "type":
                     return ("typeof", pos[0])
+                if n == "bool" and len(pos) == 1:
+                    return self.truth(pos[0], e)
                 if n in ("all", "any"):
                     vals = [self.truth(v) for v in self.iterate(pos[0], e)]
                     return all(vals) if n == "all" else any(vals)
@@ -883,7 +933,15 @@ class TermAlg:
                         o = pos[1][1]
                         return isinstance(v, Rec) and isinstance(o, Rec) and self.prog.is_subclass(v.cls, o.cls)
                     if tname == "str":
-                        return isinstance(v, tuple) and v and v[0] == "str"
+                        return isinstance(v, tuple) and bool(v) and v[0] == "str"
+                    if tname in ("dict", "Dict", "typing.Dict"):
+                        return isinstance(v, DictV)
+                    if tname in ("list", "List", "typing.List"):
+                        return isinstance(v, ListV)
+                    if tname in ("tuple", "Tuple"):
+                        return isinstance(v, TupV)
+                    if tname in ("int", "float", "(int, float)", "(float, int)"):
+                        return isinstance(v, Rat)
                     if isinstance(v, Rec):
                         names = [tname] if not isinstance(e.args[1], ast.Tuple) else [norm(x) for x in e.args[1].elts]
                         return any(self.prog.is_subclass(v.cls, t_) for t_ in names if t_ in self.prog.classes)
